@@ -127,7 +127,7 @@ theorem flat_then_own (fuel : Nat) (h : Heap) (c : Nat) (cl : Cls) (hc : h.cls[c
 
 /-- the classes a shallow observation refers to -/
 def succs (o : Obs1) : List Nat :=
-  o.fields.map (·.2) ++ o.ext.toList ++ o.orig.toList ++ o.target.toList
+  o.fields.map (·.2) ++ o.ext.toList ++ o.orig.toList ++ o.target.toList ++ o.subs.getD []
 
 theorem obs1_some (F : Facts15) (h : Heap) (c : Nat) (o : Obs1) (ho : obs1 F h c = some o) :
     ∃ cl, h.cls[c]? = some cl ∧ o.fields = cl.fields ∧ o.ext = cl.ext ∧ o.tn = cl.tn := by
@@ -191,7 +191,7 @@ theorem obsRefs_sub (o : Obs1) : ∀ p, p ∈ obsRefs o → p.2 ∈ succs o := b
     subst hp
     simp [succs, ht]
   · simp only [succs, List.mem_append, List.mem_map]
-    left; left; left; exact ⟨p, hp, rfl⟩
+    left; left; left; left; exact ⟨p, hp, rfl⟩
 
 /-- DEEP FRAME: the deep snapshot of a model is unchanged when the shallow observation of every model it
     (transitively) refers to is unchanged -/
@@ -227,6 +227,14 @@ theorem deepObs_congr (F : Facts15) (h h' : Heap) (S : Nat → Prop)
         apply List.map_congr_left
         intro p hp
         rw [ih p.2 (hcl p.2 (obsRefs_sub o p hp))]
-      rw [horig, hext, hfs]
+      have hsubs : o.subs.map (fun l => l.map (tnOf h')) = o.subs.map (fun l => l.map (tnOf h)) := by
+        cases hsb : o.subs with
+        | none => rfl
+        | some l =>
+          simp only [Option.map_some, Option.some.injEq]
+          apply List.map_congr_left
+          intro r hr
+          exact tnOf_congr F h h' r (hs r (hcl r (by simp [succs, hsb, hr])))
+      rw [horig, hext, hfs, hsubs]
 
 end SpyneModel.Derive
